@@ -1009,6 +1009,14 @@ def _finalize_fairy(
             if connection_record:
                 connection_record.invalidate(e=e)
             if not isinstance(e, Exception):
+                # the record was invalidated; return it to the pool before
+                # propagating, otherwise its slot stays checked out until
+                # the fairy is garbage collected
+                if (
+                    connection_record
+                    and connection_record.fairy_ref is not None
+                ):
+                    connection_record.checkin()
                 raise
         finally:
             if detach and is_gc_cleanup and dont_restore_gced:
